@@ -936,3 +936,45 @@ impl<'g, T: RcObject> Pointer for Snapshot<'g, T> {
         Pointer::fmt(&self.ptr, f)
     }
 }
+
+/// Read-only introspection for the verification harness.
+#[cfg(circ_verif)]
+pub(crate) mod verif_strong {
+    use super::*;
+
+    /// The raw word (address, user tag and internal epoch bits) of an `Rc`.
+    pub fn rc_word<T: RcObject>(rc: &Rc<T>) -> usize {
+        rc.ptr.verif_word()
+    }
+    pub fn snapshot_word<T>(s: &Snapshot<'_, T>) -> usize {
+        s.ptr.verif_word()
+    }
+    /// The raw word currently stored in the cell, read without passing a yield point.
+    pub fn atomic_rc_peek<T: RcObject>(a: &AtomicRc<T>) -> usize {
+        a.link.load(Ordering::SeqCst).verif_word()
+    }
+    /// `(strong, weak, destructed, weaked, epoch)`.
+    pub fn rc_counts<T: RcObject>(rc: &Rc<T>) -> Option<(u32, u32, bool, bool, u32)> {
+        unsafe {
+            rc.ptr
+                .as_raw()
+                .as_ref()
+                .map(|p| crate::utils::verif_shim::counts_ptr(p))
+        }
+    }
+    /// # Safety
+    ///
+    /// The block must still be allocated.
+    pub unsafe fn snapshot_counts<T>(s: &Snapshot<'_, T>) -> Option<(u32, u32, bool, bool, u32)> {
+        s.ptr
+            .as_raw()
+            .as_ref()
+            .map(|p| crate::utils::verif_shim::counts_ptr(p))
+    }
+    pub fn iter_remain<T: RcObject>(it: &NewRcIter<T>) -> usize {
+        it.remain
+    }
+    pub fn iter_word<T: RcObject>(it: &NewRcIter<T>) -> usize {
+        it.ptr.verif_word()
+    }
+}
